@@ -41,7 +41,31 @@ def str_method(eng, base, attr, node):
     sym = is_sym(base)
 
     def native(eng_, args, kwargs):
-        if not any(eng_._has_sym(a) for a in args) and not sym:
+        args = [a.items if type(a).__name__ == 'GenResult' else a for a in args]
+        if attr == 'format' and not sym:
+            import string as _string
+            from . import segstr
+            parts = []
+            auto = 0
+            for lit, field, spec, conv in _string.Formatter().parse(base):
+                if lit:
+                    parts.append(lit)
+                if field is None:
+                    continue
+                if spec or conv:
+                    raise Unsupported('str.format with a format spec')
+                if field == '':
+                    val = args[auto]
+                    auto += 1
+                elif field.isdigit():
+                    val = args[int(field)]
+                elif field in kwargs:
+                    val = kwargs[field]
+                else:
+                    raise PyRaise('KeyError', field, node=node)
+                parts += segstr.parts_of(eng_.to_str(val))
+            return segstr.build(parts)
+        if not any(eng_._has_sym(a) for a in args) and not any(eng_._has_sym(v) for v in kwargs.values()) and not sym:
             try:
                 return getattr(base, attr)(*args, **kwargs)
             except (ValueError, TypeError, IndexError) as e:
@@ -49,6 +73,35 @@ def str_method(eng, base, attr, node):
         return symbolic(eng_, args, kwargs)
 
     def symbolic(eng_, args, kwargs):
+        from . import segstr
+        if attr == 'split' and args and isinstance(args[0], str) and len(args[0]) == 1:
+            try:
+                return segstr.split(eng_, base, args[0], args[1] if len(args) > 1 else -1)
+            except Unsupported:
+                pass
+        if attr == 'replace' and len(args) == 2 and isinstance(args[0], str) and isinstance(args[1], str) and len(args[0]) == 1:
+            try:
+                return segstr.replace(eng_, base, args[0], args[1])
+            except Unsupported:
+                pass
+        if attr == 'strip' and not args:
+            return segstr.strip(eng_, base)
+        if attr == 'count' and args and isinstance(args[0], str):
+            return segstr.count(eng_, base, args[0])
+        if attr == 'startswith' and args and isinstance(args[0], str):
+            r = segstr.startswith(eng_, base, args[0])
+            if r is not None:
+                return r
+        if attr == 'join':
+            items = eng_.iterate_concrete(args[0])
+            out = []
+            for i, x in enumerate(items):
+                if pytype(x) != STR:
+                    raise PyRaise('TypeError', 'sequence item: expected str instance', node=node)
+                if i:
+                    out += segstr.parts_of(base)
+                out += segstr.parts_of(x)
+            return segstr.build(out)
         s = zs(base)
         if attr == 'startswith':
             pre = args[0]
